@@ -103,7 +103,8 @@ def addLocked {H : Type} [DecidableEq H] (pts : H → Nat → List Nat) (r : Rin
       sortedKeys := r.sortedKeys ++ ps.toArray
       mapValues := r.mapValues ++ [ep.host] }
 
-/-- `(*ConsistentHash).Refresh` (errors of `addLocked` are discarded: `_ = c.addLocked(ep)`) -/
+/-- `(*ConsistentHash).Refresh` (errors of `addLocked` are discarded: `_ = c.addLocked(ep)`).
+    Nothing of the caller's slice is kept (endpoints are copied into the maps). -/
 def refresh {H : Type} [DecidableEq H] (pts : H → Nat → List Nat) (r : Ring H) (eps : List (Ep H)) : Ring H :=
   let r0 : Ring H := { r with mapValues := [], hashRing := [], sortedKeys := #[] }
   let r1 := eps.foldl (fun r ep => match addLocked pts r ep with | some r' => r' | none => r) r0
